@@ -44,6 +44,13 @@ pub enum DTy {
     },
     /// Function block instance; its variables are `Layout::pous[name]`.
     Fb(String),
+    /// WSTRING[max]
+    WStr {
+        max: u32,
+    },
+    /// Any other elementary type, by the tag its values carry (CHAR, WCHAR, LTIME, DATE, TOD,
+    /// DT, ...).
+    Tagged(String),
 }
 
 impl DTy {
@@ -60,6 +67,8 @@ impl DTy {
             DTy::Array { dims, elem } => format!("ARRAY{dims:?} OF {}", elem.text()),
             DTy::Struct { name, .. } => format!("STRUCT {name}"),
             DTy::Fb(n) => format!("FB {n}"),
+            DTy::WStr { max } => format!("WSTRING[{max}]"),
+            DTy::Tagged(t) => t.clone(),
         }
     }
     /// The tag a well-typed value of this declared type carries.
@@ -73,6 +82,8 @@ impl DTy {
             DTy::Array { .. } => "ARRAY".into(),
             DTy::Struct { .. } => "STRUCT".into(),
             DTy::Fb(_) => "INSTANCE".into(),
+            DTy::WStr { .. } => "WSTRING".into(),
+            DTy::Tagged(t) => t.clone(),
         }
     }
 }
@@ -235,7 +246,18 @@ impl<'a> Walker<'a> {
             return;
         }
         match ty {
-            DTy::Elem(_) | DTy::Bits(_) => {
+            DTy::WStr { max } => {
+                self.leaves += 1;
+                match v {
+                    Value::WString(s) => {
+                        if s.chars().count() > *max as usize {
+                            self.push(path, key, ty, Some(v), What::StrLen);
+                        }
+                    }
+                    _ => self.push(path, key, ty, Some(v), What::Tag),
+                }
+            }
+            DTy::Elem(_) | DTy::Bits(_) | DTy::Tagged(_) => {
                 self.leaves += 1;
                 if tag_of(v) != ty.tag() {
                     self.push(path, key, ty, Some(v), What::Tag);
